@@ -115,6 +115,7 @@ class CallCase(base.CaseBase):
         self.fn = CALLABLES[self.fnname]
         self.slice = params.get('slice', 'page')
         self.context = params.get('context', 'top')
+        self.sort = params.get('sort', False)
 
     def pre(self, npos, nkw, w, rw):
         fix = self.params.get('fix')
@@ -137,14 +138,16 @@ class CallCase(base.CaseBase):
             warnings.simplefilter('always')
             try:
                 if self.native:
-                    text = pfbase.native_pformat(value, w, rw)
+                    text = pfbase.native_pformat(value, w, rw, sort_dict_keys=self.sort)
                 else:
-                    text = pfbase.stream_text(pfbase.sdocs(value, w, rw, False))
+                    text = pfbase.ptext(value, w, rw, sort_dict_keys=self.sort)
             except Exception as e:
                 exc = type(e).__name__
                 return self.fail('C17:pformat-raises-' + exc, lambda: repr(e))
         with NoTracing():
-            describe = lambda: 'callable=%s style=%s args=%r kwargs=%r w=%r rw=%r\noutput:\n%s' % (
+            describe = lambda: 'callable=%s style=%s sort_dict_keys=%r args=%r kwargs=%r w=%r rw=%r\noutput:\n%s' % (
+                self.fnname, self.style, self.sort, args, kwargs, w, rw, text)
+            describe_old = lambda: 'callable=%s style=%s args=%r kwargs=%r w=%r rw=%r\noutput:\n%s' % (
                 self.fnname, self.style, args, kwargs, w, rw, text)
             if wlist:
                 return self.fail('C17:warning-emitted', lambda: describe() + '\n%r' % [str(x.message)[:300] for x in wlist])
@@ -174,7 +177,8 @@ class CallCase(base.CaseBase):
                 return self.fail('C17:evaluation-performs-other-call', describe)
             # each argument printed exactly as it would be on its own
             for node, v in list(zip(tree.args, args)) + list(zip([kw.value for kw in tree.keywords], [x for _, x in kwargs])):
-                own = ast.dump(ast.parse('(' + PKG.pformat(v, width=10 ** 6, ribbon_width=10 ** 6) + '\n)', mode='eval').body)
+                own = ast.dump(ast.parse('(' + PKG.pformat(v, width=10 ** 6, ribbon_width=10 ** 6,
+                                                             sort_dict_keys=self.sort) + '\n)', mode='eval').body)
                 if ast.dump(node) != own:
                     return self.fail('C17:argument-not-printed-as-on-its-own', describe)
             return True
@@ -239,6 +243,7 @@ class FieldsCase(base.CaseBase):
         self.nfields = params['nfields']
         self.frozen = params.get('frozen', False)
         self.slots = params.get('slots', False)
+        self.decoy = params.get('decoy', False)
         self.modname = 'prettyprinter.extras.' + ('dataclasses' if self.lib == 'dataclasses' else 'attrs')
         self.mod = importlib.import_module(self.modname)
 
@@ -323,6 +328,20 @@ class FieldsCase(base.CaseBase):
                 setattr(self.mod, name, fn)
         ctx = PP.PrettyContext(indent=4, depth_left=float('inf'))
         try:
+            if self.decoy:
+                # another class definition with the same module and name (a
+                # re-definition / repeated make_dataclass) printed first
+                with NoTracing():
+                    dcls, _, _ = self.make_class([True] * 3, [0] * 3, [V(0)] * 3)
+                    dinst = dcls(**{FNAMES[k]: V(99) for k in range(self.nfields)})
+                try:
+                    if self.lib == 'dataclasses':
+                        self.mod.pretty_dataclass_instance(dinst, ctx)
+                    else:
+                        self.mod.pretty_attrs(dinst, ctx)
+                except Exception as e:
+                    return self.fail('C17:%s-printer-raises-%s' % (self.lib, type(e).__name__), lambda: repr(e))
+                del calls[:]
             try:
                 if self.lib == 'dataclasses':
                     if not self.mod.is_instance_of_dataclass(inst):
@@ -406,7 +425,7 @@ class InstanceCase(pfbase.CfgCase):
                 if self.native:
                     text = pfbase.native_pformat(self.value, w, rw)
                 else:
-                    text = pfbase.stream_text(pfbase.sdocs(self.value, w, rw, False))
+                    text = pfbase.ptext(self.value, w, rw)
             except Exception as e:
                 exc = type(e).__name__
                 return self.fail('C17:pformat-raises-' + exc, lambda: repr(e))
@@ -450,8 +469,8 @@ def cases(tier, seed):
                 if tier == 'quick' and (n % 4 != 0):
                     continue
                 # all 16 argument-count combinations at the default configuration
-                out.append({'name': 'call:%s:%s:%s|default' % (pool, style, cname), 'family': 'call',
-                            'params': {'pool': pool, 'style': style, 'callable': cname,
+                out.append({'name': 'call:%s:%s:%s|default%s' % (pool, style, cname, '|sorted' if n % 8 < 4 else ''), 'family': 'call',
+                            'params': {'pool': pool, 'style': style, 'callable': cname, 'sort': n % 8 < 4,
                                        'context': 'top' if n % 2 else 'elem', 'slice': 'default'},
                             'budget': 150.0 if tier == 'quick' else 400.0, 'path_timeout': 30.0,
                             'twin': n == 4})
@@ -473,6 +492,10 @@ def cases(tier, seed):
                             'params': {'lib': lib, 'nfields': nf, 'frozen': frozen, 'slots': slots},
                             'budget': 200.0 if tier == 'quick' else 900.0, 'path_timeout': 40.0,
                             'twin': nf == 1})
+            if nf <= 2 or tier == 'thorough':
+                out.append({'name': 'fields:%s:n%d:after-same-named-class' % (lib, nf), 'family': 'fields',
+                            'params': {'lib': lib, 'nfields': nf, 'decoy': True},
+                            'budget': 200.0 if tier == 'quick' else 900.0, 'path_timeout': 40.0})
     for i, src in enumerate(dcls.INSTANCES):
         out.append({'name': 'inst:%s' % src[:60], 'family': 'instances',
                     'params': {'value': src, 'slice': 'page'},
